@@ -8,6 +8,8 @@ Tie:      function level  parse_assignment_indices vs `parseSlice`; the plan bui
                           the per-axis Lean plan; the recorded plan replayed on NumPy (property oracle);
           API level       x[idx] = v; x.compute() vs NumPy, chunks unchanged — all index kinds, broadcast
                           values, NumPy and dask values, dask masks.
+Extension round (props/_c21x.py, Props/C21x.lean): sections maskplan / maskapi (the `where` path of __setitem__) and
+vpieces (value pieces of setitem_array per block and axis).
 """
 from __future__ import annotations
 
@@ -35,8 +37,27 @@ LEVEL_TEXT = (
     "n_preceding in axis order (nd_block_indices, nd_block_sizes); a vector of (array position, value position) "
     "pairs is assigned by some block iff it is NumPy's pair on every axis (setitem_nd_den). The value-index "
     "bookkeeping (offset between array and value axes, broadcast size-1 axes, extra leading axes, reversal, Ellipsis) "
-    "is modelled (SetItemND.planND) and diffed block by block against the real plan, not proved. Validated only: "
-    "dask-array indices, the `where` path for full-shape masks, the chunk function `setitem` (function level: equals "
+    "is modelled (SetItemND.planND), diffed block by block against the real plan, and proved (Props/C21x): for every "
+    "plan that does not raise and every touched block value_indices is [Ellipsis] (iff the value has extra leading "
+    "axes) followed by one entry per common value axis i — slice(None) on a length-one value axis, else the slice "
+    "[n_preceding, n_preceding+size) / the positions value_indices_from_1d_int_index of the non-integer array axis "
+    "i+offset, mirrored iff i is in the renumbered reverse (plan_value_indices); evaluated with Python's slice "
+    "semantics the positions a block reads are NumPy's for the ranks of its elements — 0 on a broadcast axis, the "
+    "ranks, or the mirrored ranks (value_index_positions); over all blocks of a slice axis, in block order, the "
+    "(array position, value position) pairs are zip(selected positions, NumPy's value positions): the pieces are "
+    "disjoint, consecutive and cover the value axis once in selection order, a size-1 axis is read at 0 by every "
+    "block (value_indices_partition_nd); N-d: a vector of per-axis pairs is assigned by some block iff it is NumPy's "
+    "with broadcasting on every axis (setitem_nd_value_den). The `where` path for full-shape masks (dask masks, "
+    "NumPy masks of rank > 1) is modelled (SetItemMask: dispatch, wherePlan = unify_chunks + one np.where task per "
+    "block + rechunk back) and proved: for every chunking of array and mask and every value broadcastable in "
+    "`where` the blocked result holds mask ? value[broadcast g] : x[g] at every position (where_blocked_den, the "
+    "elementwise lemma over the N-d blocked denotation); the assignment keeps x's chunks, rechunks back exactly when "
+    "the unified chunks differ and equals NumPy's x[mask] = v for a 0-d v (setitem_mask_den, np_mask_scalar: NumPy's "
+    "C-order masked assignment with a broadcast scalar is that where); the path rejects a mask of another shape "
+    "(IndexError) and every value of rank > 0 (ValueError: documented limitation, finding setitem:nd-mask+array-value) "
+    "(setitem_mask_raises, dispatch_where_iff); under the assumptions that rechunking preserves the blocked denotation "
+    "(C23/C24) and np.where on one block is elementwise. Validated only: "
+    "dask-array indices in setitem_array, lower-rank N-d masks (rejected by dask, accepted by NumPy), the chunk function `setitem` (function level: equals "
     "NumPy on a copy, never writes into its input block, result does not alias it), values/masks/indices derived "
     "from the same array under the sync and threaded schedulers with the source re-computed afterwards. Histories on ONE Array object: the cached attributes "
     "(_cached_keys, _key_array, numblocks, npartitions, shape, ndim, size) are modelled as a state machine (ArrayCache: "
@@ -52,13 +73,21 @@ LEVEL_NOTE = (
     "parse_assignment_indices and against the complete plan the real setitem_array builds (block indices per block and "
     "the value indices it requests, recorded through a proxy value, no source hook); the recorded plan replayed on "
     "NumPy must equal NumPy's own assignment; NumPy assignment x_block[block_indices] = v_piece on one block is the "
-    "per-axis product; the scheduler runs each setitem task once with the blocks it names."
+    "per-axis product with a length-one piece axis broadcast (pairUp; probed against NumPy per block and axis in section "
+    "vpieces); the scheduler runs each setitem task once with the blocks it names. Extension: SetItemMask.wherePlan is "
+    "diffed against the graph the real __setitem__ builds (branch taken, chunks of the where layer, one np.where task per "
+    "block and the blocks it reads, which inputs are rechunked, rechunk back, final chunks, every block's values); "
+    "vixEval / axisBlockPairsV / axisSelectedV are diffed against NumPy's evaluation of the real recorded block and value "
+    "indices; rechunk preserves the denotation (proved for rechunk in C23/C24, assumed here)."
 )
 TECHNIQUE = "Lean 4 proof (range splitting over the chunk list, counting lemmas) + differential correspondence (plan level and API level) with NumPy"
 ASSUMPTIONS = [
     "divmod(a, b) for b > 0 is floor division / non-negative remainder (Int.ediv / Int.emod)",
     "np.where(cond)[0] lists the positions where cond holds in increasing order; np.sum of a bool array counts True",
     "NumPy assignment x_block[block_indices] = v_piece on one block",
+    "np.where(mask_block, v, x_block) with a 0-d v is elementwise on one block",
+    "Array.rechunk / unify_chunks preserve the blocked denotation (C23, C24)",
+    "blockwise hands block b of every same-chunked argument to output block b (C35/C19)",
 ]
 TRUSTED = ["NumPy assignment on a single block (the chunk function dask.array.slicing.setitem is checked at function level against it)"]
 
